@@ -167,16 +167,16 @@ class Language:
             # overhead per encode() call. To reduce number of such calls,
             # optimize the common case of all characters being representable.
             str.join('', characters).encode(encoding)
-        except UnicodeEncodeError:
+        except UnicodeError:
             pass
         else:
             return result
         for character in characters:
             try:
                 character.encode(encoding)
-            except UnicodeEncodeError as exc:
+            except UnicodeError as exc:
                 result += [character]
-                if exc.reason.startswith('iconv:'):  # pylint: disable=no-member
+                if getattr(exc, 'reason', '').startswith('iconv:'):
                     # Avoid further calls to iconv(1):
                     break
         return result
